@@ -272,5 +272,119 @@ func crun(args []string) error {
 			}
 		}
 	}
+	// Vectors in the matrix format that the matrix itself does not contain: the records of the stock inputs in other orders
+	// (a second schema / channel pair announced after the first message, an attachment and a metadata record between
+	// messages), unchunked, under several feature sets.  The expected bytes come from the same port of generate-inputs.ts;
+	// the write tool must turn the description into exactly those bytes, record order included.
+	if *which == "all" && *only == "" && *wtool != "" {
+		load := func(rel string) (*refmcap.CVector, error) {
+			jb, err := os.ReadFile(filepath.Join(*repo, "tests/conformance/data", rel))
+			if err != nil {
+				return nil, err
+			}
+			var v refmcap.CVector
+			return &v, json.Unmarshal(jb, &v)
+		}
+		ten, err1 := load("TenMessages/TenMessages.json")
+		att, err2 := load("OneAttachment/OneAttachment.json")
+		md, err3 := load("OneMetadata/OneMetadata.json")
+		if err1 != nil || err2 != nil || err3 != nil {
+			return fmt.Errorf("stock vectors for the synthetic ones are missing: %v %v %v", err1, err2, err3)
+		}
+		pick := func(v *refmcap.CVector, typ string) []refmcap.CRecord {
+			var out []refmcap.CRecord
+			for _, r := range v.Records {
+				if r.Type == typ {
+					out = append(out, r)
+				}
+			}
+			return out
+		}
+		with := func(r refmcap.CRecord, repl map[string]string) refmcap.CRecord {
+			c := refmcap.CRecord{Type: r.Type}
+			for _, f := range r.Fields {
+				if v, ok := repl[f.Name]; ok {
+					f.Value = json.RawMessage(v)
+				}
+				c.Fields = append(c.Fields, f)
+			}
+			return c
+		}
+		sc, ch, ms := pick(ten, "Schema"), pick(ten, "Channel"), pick(ten, "Message")
+		at, mdr := pick(att, "Attachment"), pick(md, "Metadata")
+		if len(sc) == 0 || len(ch) == 0 || len(ms) < 6 || len(at) == 0 || len(mdr) == 0 {
+			return fmt.Errorf("stock vectors do not have the expected records")
+		}
+		sc2 := with(sc[0], map[string]string{"id": `"2"`, "name": `"Second"`})
+		ch2 := with(ch[0], map[string]string{"id": `"2"`, "schema_id": `"2"`, "topic": `"second"`})
+		onCh2 := func(m refmcap.CRecord) refmcap.CRecord { return with(m, map[string]string{"channel_id": `"2"`}) }
+		orders := map[string][]refmcap.CRecord{
+			"LateChannel": {sc[0], ch[0], ms[0], sc2, ch2, onCh2(ms[1]), ms[2], onCh2(ms[3])},
+			"AuxBetween":  {sc[0], ch[0], ms[0], at[0], ms[1], mdr[0], ms[2]},
+			"AuxFirst":    {mdr[0], at[0], sc[0], ch[0], ms[0], ms[1]},
+		}
+		// (feature combinations whose layout the matrix does not pin down are left out: attachment and metadata indexes in one
+		// file - the matrix has no input with both kinds, so the order of the two groups is nobody's expectation - and an
+		// index feature without a record of its kind)
+		featureSetsOf := map[string][][]string{
+			"LateChannel": {{}, {"st"}, {"rch", "rsh", "st", "sum"}, {"rch"}, {"rsh", "sum"}, {"st", "sum"}},
+			"AuxBetween":  {{}, {"st"}, {"ax", "st", "sum"}, {"mdx", "st", "sum"}, {"rch", "rsh", "st", "sum"}, {"ax"}, {"mdx"}},
+			"AuxFirst":    {{}, {"st"}, {"ax", "st", "sum"}, {"mdx", "st", "sum"}, {"rch", "rsh", "st", "sum"}, {"ax"}, {"mdx"}},
+		}
+		names := make([]string, 0, len(orders))
+		for n := range orders {
+			names = append(names, n)
+		}
+		sort.Strings(names)
+		recJSON := func(r refmcap.CRecord) string {
+			var fsj []string
+			for _, f := range r.Fields {
+				nb, _ := json.Marshal(f.Name)
+				fsj = append(fsj, "["+string(nb)+","+string(f.Value)+"]")
+			}
+			tb, _ := json.Marshal(r.Type)
+			return `{"type":` + string(tb) + `,"fields":[` + strings.Join(fsj, ",") + `]}`
+		}
+		for _, n := range names {
+			for _, fset := range featureSetsOf[n] {
+				v := refmcap.CVector{}
+				v.Records = append(v.Records, refmcap.CRecord{Type: "Header", Fields: ten.Records[0].Fields})
+				v.Records = append(v.Records, orders[n]...)
+				v.Records = append(v.Records, refmcap.CRecord{Type: "DataEnd", Fields: []refmcap.CField{{Name: "data_section_crc", Value: json.RawMessage(`"0"`)}}})
+				v.Meta.Variant.Features = fset
+				gen := refmcap.GenerateConformance(&v)
+				var rj []string
+				for _, r := range v.Records {
+					rj = append(rj, recJSON(r))
+				}
+				fb, _ := json.Marshal(fset)
+				if fset == nil || len(fset) == 0 {
+					fb = []byte("[]")
+				}
+				name := "Synthetic" + n
+				if len(fset) > 0 {
+					name += "-" + strings.Join(fset, "-")
+				}
+				jf := filepath.Join(*tmp, name+".json")
+				if err := os.WriteFile(jf, []byte(`{"records":[`+strings.Join(rj, ",")+`],"meta":{"variant":{"features":`+string(fb)+`}}}`), 0o644); err != nil {
+					return err
+				}
+				outb, err := exec.Command(*wtool, jf).Output()
+				os.Remove(jf)
+				tr2 := wl.NewTrace()
+				tr2.Add(wl.Ev{"ev": "Run", "id": name + "#written", "cfg": featuresCfg(fset), "lib": wl.Blob(""), "csizes": []any{}})
+				tr2.Add(wl.Ev{"ev": "New", "ret": "ok"})
+				vectorCalls(tr2, &v)
+				tr2.Add(wl.Ev{"ev": "WriteTool", "ran": err == nil, "hashok": bytes.Equal(outb, gen), "same": bytes.Equal(outb, gen), "why": errStr(err)})
+				if err == nil {
+					tr2.Add(wl.FileEv(run.DecodeForTrace(outb)))
+				}
+				tr2.Add(wl.Ev{"ev": "End"})
+				if err := o.emit(tr2); err != nil {
+					return err
+				}
+			}
+		}
+	}
 	return nil
 }
